@@ -343,6 +343,14 @@ class Ctx:
         if 'leanchecker' in self.proof:
             cov['leanchecker'] = self.proof['leanchecker']
         cov.setdefault('rule', '')
+        # keys the evidence schema types: keep them well-typed whatever a part of the harness put there
+        for key, typ, alt in (('exhaustive', bool, 'exhaustive_parts'), ('states', int, 'states_note'),
+                              ('rule', str, None), ('evaluations', int, None)):
+            if key in cov and not isinstance(cov[key], typ):
+                if alt:
+                    cov[alt] = cov.pop(key)
+                else:
+                    cov[key] = typ(cov[key]) if typ is not str else json.dumps(cov[key], default=str)
         ev = {'property_id': self.prop, 'tier': self.tier, 'seed': self.seed, 'level': 'proof',
               'coverage': cov, 'assumptions': self.assumptions, 'wall_s': round(wall, 2),
               'violations': len(self.violations)}
